@@ -221,10 +221,15 @@ class Builder:
         elif not self.do_remove_outdated:
             await self.reporter("WARNING", "Skipping file cleanup at user's request (--no-clean)")
         else:
-            await revert_optional_steps(self.workflow, self.reporter)
+            # The files are removed before the transaction that forgets them is committed:
+            # the queue of paths to delete only lives in memory,
+            # so a director killed after the commit would leave those files behind forever.
+            # Killed before the commit, the next cleanup finds the same nodes again
+            # and no longer finds (some of) their files, which is harmless.
             async with self.db:
+                await revert_optional_steps(self.workflow, self.reporter, in_transaction=True)
                 self.workflow.delete_detached()
-            await remove_deletable_files(self.workflow, self.reporter)
+                await remove_deletable_files(self.workflow, self.reporter)
         # Step durations and tail times are derived from the settled graph,
         # so this runs after delete_detached().
         await self.scheduler.build_completed()
